@@ -1,6 +1,7 @@
 import FitModel.Items
 import FitModel.Gen.Profile
 import FitProofs.ExpandEq
+import FitProofs.ExpandEvent
 /-!
   C18 — component fields expand per profile, with per-file accumulation.
 
@@ -164,6 +165,159 @@ example :
        (expand Gen.profile m {}).1 == (XSpec.expandSpec {} Gen.profile m {}).1 &&
        (match pm.idx "EnhancedAvgSpeed" with
         | some di => (expand Gen.profile m {}).1.vals[di]? == some (Val.u 1000)
+        | none => false)
+     | none => false) = true := by decide +kernel
+
+/-! ### all five message kinds: the code's expansion is the profile's rules with the recorded deviations -/
+
+/-- Boolean form of the typing hypotheses: a scalar slot (if the field exists and is set) holds an
+    unsigned value below `2^bits` -/
+def srcUB (bits : Nat) (m : Msg) (i : Option Nat) : Bool :=
+  match i with
+  | none => true
+  | some i =>
+    match m.vals[i]? with
+    | none => true
+    | some (.u n) => decide (n < 2 ^ bits)
+    | _ => false
+
+def srcBytesB (m : Msg) (i : Option Nat) : Bool :=
+  match i with
+  | none => true
+  | some i =>
+    match m.vals[i]? with
+    | none => true
+    | some (.us none) => true
+    | some (.us (some bs)) => bs.all (fun b => decide (b < 256))
+    | _ => false
+
+theorem srcUB_sound (bits : Nat) (m : Msg) (oi : Option Nat) (h : srcUB bits m oi = true) :
+    ∀ i, oi = some i → SrcU bits m i := by
+  intro i hi v hv
+  subst hi
+  simp only [srcUB, hv] at h
+  cases v with
+  | u n => exact ⟨n, rfl, by simpa using h⟩
+  | _ => simp at h
+
+theorem src16B_sound (m : Msg) (oi : Option Nat) (h : srcUB 16 m oi = true) : ∀ i, oi = some i → Src16 m i := by
+  intro i hi v hv
+  obtain ⟨n, e, hn⟩ := srcUB_sound 16 m oi h i hi v hv
+  exact ⟨n, e, hn⟩
+
+theorem srcBytesB_sound (m : Msg) (oi : Option Nat) (h : srcBytesB m oi = true) : ∀ i, oi = some i → SrcBytes m i := by
+  intro i hi v hv
+  subst hi
+  simp only [srcBytesB, hv] at h
+  cases v with
+  | us o =>
+    refine ⟨o, rfl, ?_⟩
+    intro bs hbs b hb
+    subst hbs
+    simp only [List.all_eq_true, decide_eq_true_eq] at h
+    exact h b hb
+  | _ => simp at h
+
+def recordTypedB (pm : PMsg) (m : Msg) : Bool :=
+  srcUB 16 m (pm.idx "Altitude") && srcUB 16 m (pm.idx "Speed") &&
+  ((pm.idx "Speed").isSome && (pm.idx "Distance").isSome && (pm.idx "CompressedSpeedDistance").isSome &&
+    (pm.idx "Cycles").isSome && (pm.idx "TotalCycles").isSome && (pm.idx "CompressedAccumulatedPower").isSome &&
+    (pm.idx "AccumulatedPower").isSome) &&
+  srcBytesB m (pm.idx "CompressedSpeedDistance") && srcUB 8 m (pm.idx "Cycles") &&
+  srcUB 16 m (pm.idx "CompressedAccumulatedPower")
+
+theorem recordTypedB_sound (pm : PMsg) (m : Msg) (h : recordTypedB pm m = true) : RecordTyped pm m := by
+  unfold recordTypedB at h
+  simp only [Bool.and_eq_true] at h
+  obtain ⟨⟨⟨⟨⟨h1, h2⟩, ⟨⟨⟨⟨⟨⟨n1, n2⟩, n3⟩, n4⟩, n5⟩, n6⟩, n7⟩⟩, h3⟩, h4⟩, h5⟩ := h
+  exact ⟨src16B_sound m _ h1, src16B_sound m _ h2, ⟨n1, n2, n3, n4, n5, n6, n7⟩, srcBytesB_sound m _ h3,
+    srcUB_sound 8 m _ h4, srcUB_sound 16 m _ h5⟩
+
+def eventTypedB (pm : PMsg) (m : Msg) : Bool :=
+  srcUB 16 m (pm.idx "Data16") && srcUB 32 m (pm.idx "Data") &&
+  ((pm.idx "Data").isSome && (pm.idx "Event").isSome && (pm.idx "Score").isSome && (pm.idx "OpponentScore").isSome &&
+    (pm.idx "RearGearNum").isSome && (pm.idx "RearGear").isSome && (pm.idx "FrontGearNum").isSome &&
+    (pm.idx "FrontGear").isSome)
+
+theorem eventTypedB_sound (pm : PMsg) (m : Msg) (h : eventTypedB pm m = true) : EventTyped pm m := by
+  unfold eventTypedB at h
+  simp only [Bool.and_eq_true] at h
+  obtain ⟨⟨h1, h2⟩, ⟨⟨⟨⟨⟨⟨⟨n1, n2⟩, n3⟩, n4⟩, n5⟩, n6⟩, n7⟩, n8⟩⟩ := h
+  exact ⟨src16B_sound m _ h1, srcUB_sound 32 m _ h2, ⟨n1, n2, n3, n4, n5, n6, n7, n8⟩⟩
+
+/-- the typing check for whichever of the five kinds the message is (true for any other message) -/
+def typedB (P : Profile) (m : Msg) : Bool :=
+  match P.msg? m.num with
+  | none => true
+  | some pm =>
+    if m.num = mnRecord then recordTypedB pm m
+    else if m.num = mnEvent then eventTypedB pm m
+    else if m.num = mnSession ∨ m.num = mnLap ∨ m.num = mnSegmentLap then
+      srcUB 16 m (pm.idx "AvgSpeed") && srcUB 16 m (pm.idx "MaxSpeed") && srcUB 16 m (pm.idx "AvgAltitude") &&
+        srcUB 16 m (pm.idx "MaxAltitude") && srcUB 16 m (pm.idx "MinAltitude")
+    else true
+
+/-- **`expandComponents` is the profile's component rules with exactly the recorded deviations.**
+    For every message whose component sources hold the kinds of value the decoder stores (`typedB`),
+    of any type: the statement-by-statement model `expand` of the generated code equals the generic,
+    rule-driven specification `expandSpec` with D10 (distance loses its top nibble) and D11
+    (total_cycles / accumulated_power accumulators with mask 0) switched on — message and
+    accumulators alike. Nothing else separates the code from the profile's rules. -/
+theorem expand_eq_spec (P : Profile) (m : Msg) (g : Globals) (h : typedB P m = true) :
+    expand P m g = XSpec.expandSpec codeQuirks P m g := by
+  unfold typedB at h
+  cases hpm : P.msg? m.num with
+  | none => simp [expand, XSpec.expandSpec, hpm]
+  | some pm =>
+    rw [hpm] at h
+    simp only at h
+    by_cases hr : m.num = mnRecord
+    · simp only [hr, ↓reduceIte] at h
+      unfold expand XSpec.expandSpec
+      rw [hpm]
+      simp only [hr, ↓reduceIte]
+      exact (record_eq pm m g (recordTypedB_sound pm m h)).symm
+    · simp only [hr, ↓reduceIte] at h
+      by_cases he : m.num = mnEvent
+      · simp only [he, ↓reduceIte] at h
+        have e2 : ¬ (m.num = mnSession ∨ m.num = mnLap) := by rw [he]; decide
+        have e3 : ¬ m.num = mnSegmentLap := by rw [he]; decide
+        unfold expand XSpec.expandSpec
+        rw [hpm]
+        simp only [hr, e2, e3, ↓reduceIte, he]
+        have := event_eq codeQuirks pm m g (eventTypedB_sound pm m h)
+        rw [this]
+        have d1 : ¬ mnEvent = mnRecord := by decide
+        have d2 : ¬ (mnEvent = mnSession ∨ mnEvent = mnLap) := by decide
+        have d3 : ¬ mnEvent = mnSegmentLap := by decide
+        simp only [d1, d2, d3, ↓reduceIte]
+      · simp only [he, ↓reduceIte] at h
+        by_cases hs : m.num = mnSession ∨ m.num = mnLap ∨ m.num = mnSegmentLap
+        · simp only [hs, ↓reduceIte, Bool.and_eq_true] at h
+          obtain ⟨⟨⟨⟨h1, h2⟩, h3⟩, h4⟩, h5⟩ := h
+          exact expand_eq_rules_lap_session_segment codeQuirks P m g pm hpm hs (src16B_sound m _ h1) (src16B_sound m _ h2)
+            (src16B_sound m _ h3) (src16B_sound m _ h4) (src16B_sound m _ h5)
+        · have e1 : ¬ (m.num = mnSession ∨ m.num = mnLap) := fun x => hs (x.elim Or.inl (fun y => Or.inr (Or.inl y)))
+          have e2 : ¬ m.num = mnSegmentLap := fun x => hs (Or.inr (Or.inr x))
+          unfold expand XSpec.expandSpec XSpec.rulesFor
+          rw [hpm]
+          simp only [hr, he, e1, e2, ↓reduceIte, XSpec.applyRules]
+
+set_option maxRecDepth 100000 in
+/-- non-vacuity on the regenerated profile: a record with compressed_speed_distance [0x12, 0x34, 0xAB]
+    (the D10 pattern), cycles 7 and compressed_accumulated_power 300 passes the typing check, and the
+    two sides agree on it — the distance they both produce is the truncated 0xB3, not 0xAB3 -/
+example :
+    (match Gen.profile.msg? mnRecord with
+     | some pm =>
+       let m : Msg := ⟨mnRecord, (pm.invalid.zipIdx.map fun (v, i) =>
+         if pm.idx "CompressedSpeedDistance" = some i then Val.us (some [0x12, 0x34, 0xAB])
+         else if pm.idx "Cycles" = some i then Val.u 7
+         else if pm.idx "CompressedAccumulatedPower" = some i then Val.u 300 else v)⟩
+       typedB Gen.profile m &&
+       ((expand Gen.profile m {}).1 == (XSpec.expandSpec codeQuirks Gen.profile m {}).1) &&
+       (match pm.idx "Distance" with
+        | some di => (expand Gen.profile m {}).1.vals[di]? == some (Val.u 0xB3)
         | none => false)
      | none => false) = true := by decide +kernel
 
